@@ -172,6 +172,8 @@ def run(prop: str, tier: str) -> int:
         run_items(rep, prop, plain if not quick else plain[::3], "ustr", quick, "unicode")
         # DictWrapper data with the library's own mapper pair (maps that name keys of the user's dicts)
         run_items(rep, prop, plain if not quick else plain[1::2], "dwrap", quick, "dictwrapper")
+        # strings and objects in one tree, strict deserialiser: bare strings must not reach the mapper
+        run_items(rep, prop, plain if not quick else plain[1::2], "mixed", quick, "mixed")
         # plain dicts (unhashable) identified by an id callback: every entry carries its data_id
         run_items(rep, prop, plain if not quick else plain[::2], "unhash", quick, "unhashable")
         if prop == "C05":
